@@ -176,4 +176,52 @@ def c03_check(pid, tier, seed, replay=None):
         cleanup(wd)
 
 
-CHECKS = {"C03": c03_check}
+def simple_table_check(parts, assumptions, required=()):
+    """Check made of decision tables only. parts: list of dict(module, sub, prefixes, sig, need, label)."""
+    def chk(pid, tier, seed, replay=None):
+        t0 = time.time()
+        wd = workdir(pid)
+        try:
+            if tier == "replay":
+                return table_replay(pid, wd, replay, [(p["module"], p["sub"], p["prefixes"]) for p in parts])
+            binp = go_build(wd)
+            tbs, viols = [], []
+            for p in parts:
+                tb = table_run(pid, p["module"], p["sub"], tier, seed, wd, p["prefixes"], p["sig"], need=p.get("need"), binp=binp, label=p.get("label"))
+                for k in p.get("required", ()):
+                    if not tb["coverage"].get(k):
+                        raise Inconclusive(f"vacuous table run ({p['module']}): no observation {k}; have {sorted(tb['coverage'])[:40]}")
+                tbs.append(tb)
+                viols += tb["viols"]
+            new, known = report(pid, viols, lambda v: v["signature"],
+                                lambda v: dict(rule=v["rule"], module=v["module"], id=v["id"], case=v["case"], observed=v["observed"]),
+                                wd, [], seed, tier, extra_save=write_cases)
+            merge_evidence(pid, tier, seed, t0, None, tbs, new, known, assumptions)
+            return 1 if new else 0
+        finally:
+            cleanup(wd)
+    return chk
+
+
+def c01_sig(o):
+    t, cfg = o["c"]["tok"], o["c"]["cfg"]
+    base = dict(iss="ok", sub="present", aud="cid", azp="absent", exp=3600, iat=-3, auth=-3, acr="allowed", athash="correct", withAT=True, alg="ES256", sig="good")
+    dev = sorted(k for k, v in base.items() if t.get(k) != v)
+    return f"{o['o']['v']}:dev={'+'.join(dev) or 'none'}"
+
+
+def c01_need(o):
+    return [f"v:{o['o']['v']}", f"err:{o['o'].get('err', '-')}"]
+
+
+CHECKS = {
+    "C03": c03_check,
+    "C01": simple_table_check(
+        [dict(module="Verifier", sub="tbl-verifier", prefixes=("C01.",), sig=c01_sig, need=c01_need, label="ID-token verifier table",
+              required=["v:accept", "err:expired", "err:audience", "err:issuer", "err:iatFuture", "err:iatOld", "err:azpMissing", "err:azpInvalid",
+                        "err:subject", "err:signature", "err:athash", "err:nonce", "err:acr", "err:authTimeOld", "err:authTimeMissing"])],
+        ["tokens are really signed JWTs (ES256/RS256/ES384/EdDSA) built relative to a `now` sampled immediately before the call; every time-valued "
+         "claim lies at least 2 s away from a boundary whenever the spec allows only one verdict",
+         "the harness computes at_hash itself (crypto/sha256, sha512), independently of oidc.ClaimHash",
+         "case domain: all token deviations in <= 2 (quick) / <= 3 (thorough, near the default configurations) dimensions from the valid token of each of the 72 verifier configurations"]),
+}
